@@ -72,6 +72,45 @@ def prog(kind, n):
             "def main(arg: i64): i64 { %s let f: Fun[i64, i64] = new { apply(y) => %s }; "
             "println_i64(f.apply[i64, i64](1)); println_i64(f.apply[i64, i64](2)); 0 }\n" % (body, total(n, ["y"]))
         )
+    if kind == "cmp":
+        # all six comparisons between the LAST variable (spilled for large N) and the FIRST (in a register), both orders
+        if n < 2:
+            return None
+        a, b = "v%d" % (n - 1), "v0"
+        parts = [body]
+        k = 0
+        for (x, y) in ((a, b), (b, a), (a, a)):
+            for srt in ("==", "!=", "<", "<=", ">", ">="):
+                parts.append("let c%d: i64 = if %s %s %s { 1 } else { 0 }; print_i64(c%d);" % (k, x, srt, y, k))
+                k += 1
+        for srt in ("==", "!=", "<", "<=", ">", ">="):
+            parts.append("let z%d: i64 = if %s %s 0 { 1 } else { 0 }; print_i64(z%d);" % (k, a, srt, k))
+            k += 1
+        parts.append("println_i64(%s); 0" % total(n))
+        return HEAD + "def main(arg: i64): i64 { %s }\n" % " ".join(parts)
+    if kind == "shared":
+        # a shared object (refcount > 0: loaded in SHARE mode) whose pointer sits at position N, with a
+        # pointer-carrying variable at position 3 (whose first temporary is a register the loads use as scratch)
+        decls = []
+        for i in range(n):
+            if i == 3:
+                decls.append("let v3l: List[i64] = Cons(33, Nil);")
+            elif i == 0:
+                decls.append("let v0: i64 = arg + 1;")
+            else:
+                decls.append("let v%d: i64 = %d;" % (i, 10 + i))
+        t = "0"
+        for i in range(n):
+            if i == 3:
+                continue
+            t = "(%s + v%d)" % (t, i)
+        tail3 = "println_i64(v3l.case[i64] { Nil => 0, Cons(h, r) => h });" if n > 3 else ""
+        return HEAD + (
+            "def main(arg: i64): i64 { %s let l: List[i64] = Cons(100, Cons(200, Nil)); "
+            "let a: i64 = l.case[i64] { Nil => 0, Cons(h, r) => h + %s }; println_i64(a); "
+            "let b: i64 = l.case[i64] { Nil => 0, Cons(h, r) => r.case[i64] { Nil => h, Cons(h2, r2) => h2 + %s } }; println_i64(b); %s println_i64(%s); 0 }\n"
+            % (" ".join(decls), t, t, tail3, t)
+        )
     if kind == "obj":
         if n < 1 or n > 8:
             return None
@@ -92,7 +131,7 @@ def main():
     out = sys.argv[1]
     os.makedirs(out, exist_ok=True)
     n = 0
-    for kind in ("lit", "print", "case", "ops", "clos", "obj"):
+    for kind in ("lit", "print", "case", "ops", "clos", "obj", "cmp", "shared"):
         for N in range(0, 23):
             p = prog(kind, N)
             if p is None:
